@@ -35,6 +35,12 @@ CHECKS = {
             "checked simple type with a non-conforming value), at the root and nested below valid parents; violated must raise, satisfied "
             "must return True (exhaustive over the table entries, sampled over parents).",
             PURE, "3/C13"),
+    "C14": ("exploration", "round-trip workload with independent readers (html.parser, urllib.parse, stdlib SOAP reader) + library decoder",
+            "Packages library-made messages of several types (signed and unsigned, hostile content) and arbitrary payloads with "
+            "Entity.apply_binding for POST, Redirect, SOAP, PAOS and artifact, hostile RelayStates and destinations with/without a query; an "
+            "independent reader must find exactly the expected form fields / URL parameters / SOAP body, and Entity.unravel must return the "
+            "original (bytes for POST/Redirect, element-equal for SOAP).",
+            PURE, "3/C14"),
     "C18": ("exploration", "reference-model monitor over operation histories (bounded-exhaustive + random), invariants after every step",
             "Replays every operation history up to a bounded depth over 2 users x 2 SPs (abstract-state pruned), long random histories on "
             "dict- and shelve-backed IdentDB, hostile field contents and the adversarial user-id class against a dictionary model; after each "
